@@ -260,6 +260,8 @@ FIELD_RE = re.compile(r"(ev|tr|q|err|depth)=([^;#]*)")
 
 
 def first_diff_field(impl, model):
+    if "ACT-VIOLATION" in impl:
+        return "async-context-tracker"
     if impl.startswith("HANG"):
         return "hang"
     if impl.startswith(("CRASH", "PANIC")):
@@ -286,6 +288,8 @@ def independent_checks(line, impl):
     probs = []
     if impl == "TIMEOUT":
         return []
+    if "ACT-VIOLATION" in impl:
+        return ["async-context-tracker"]
     if impl.startswith("HANG"):
         return ["hang"]
     if impl.startswith(("PANIC", "CRASH", "SETUP-ERROR", "PARSE-ERROR")):
@@ -397,7 +401,7 @@ def main(ctx):
         "one Runtime, one goroutine (the documented usage)",
     ]
     have_tie = os.path.exists(os.path.join(ROOT, "extract", "c10.go")) and ctx.regen()
-    targets = ["GojaModel.C10.Props", "model_c10"] + (["GojaModel.C10.Tie"] if have_tie else [])
+    targets = ["GojaModel.C10.Props", "GojaModel.C10.ActProps", "GojaModel.C10.ActProps2", "model_c10"] + (["GojaModel.C10.Tie"] if have_tie else [])
     ok, errs = ctx.lake_build(targets)
     model = ctx.model_exe()
     if not ok:
@@ -407,6 +411,8 @@ def main(ctx):
             model = None
         rc, o, e = sh(["lake", "build", "GojaModel.C10.Props"], cwd=LEAN, timeout=1200)
     ctx.audit("GojaModel.C10.Props", expect_min=48)
+    ctx.audit("GojaModel.C10.ActProps", expect_min=8)
+    ctx.audit("GojaModel.C10.ActProps2", expect_min=7)
     tie_ok = have_tie and not any("Tie.lean" in (e.get("file") or "") for e in errs)
     if tie_ok:
         ctx.audit("GojaModel.C10.Tie", expect_min=2)
@@ -483,11 +489,91 @@ def main(ctx):
                    "; ".join(lines[i] for i, p in indep if "queue-length" in p)[:600])
     ctx.obligation("inv:tracker-log-per-promise-in-{[r],[r,h]}", "correspondence", not any("tracker" in p for _, p in indep),
                    "; ".join(lines[i] for i, p in indep if "tracker" in p)[:600])
+    ctx.obligation("inv:async-context-tracker-protocol(never nested, resumed context grabbed before, at most once)", "correspondence",
+                   not any("async-context-tracker" in p for _, p in indep),
+                   "; ".join("%s -> %s" % (lines[i], impl[i][-300:]) for i, p in indep if "async-context-tracker" in p)[:900])
     ctx.obligation("inv:no-harness-crash", "correspondence", not any(p[0].startswith("harness:") for _, p in indep),
                    "; ".join("%s -> %s" % (lines[i], impl[i][:200]) for i, p in indep if p[0].startswith("harness:"))[:900])
     ctx.obligation("inv:every-program-terminates(model terminates; per-case deadline 20 s, retried with 80 s)", "correspondence",
                    not any("hang" in p for _, p in indep), "; ".join(lines[i] for i, p in indep if "hang" in p)[:900])
 
+    # ------------------------------------------------------------------ interrupt from ANOTHER goroutine, at an arbitrary moment
+    # The first run is interrupted by rt.Interrupt() called from a second goroutine after a random delay.  Whatever the
+    # moment: (1) what happened up to it is a prefix of the uninterrupted run predicted by the model (events, tracker log),
+    # (2) the job queue is empty when RunString returns, (3) the next outermost call sees none of the dropped jobs
+    # (`after_interrupt_only_new_jobs` holds for EVERY reachable kernel state, i.e. for every interrupt point);
+    # if the interrupt arrives too late the whole run must equal the model's.
+    gprogs = []
+    for line, secs in cases:
+        if secs is None or " int" in line or len(gprogs) >= (700 if quick else 6000):
+            continue
+        if any(x["k"] == "G" for x in secs):
+            continue
+        keep = [x for x in secs if x["k"] != "R"] + [x for x in secs if x["k"] == "R"][:1]
+        gprogs.append(render(keep) + " | R log 9 ; ret u")
+    gdel = ["%d:%d" % (ctx.rng.choice([0, 1, 1, 1, 2, 2, 3, 4, 6]), ctx.rng.choice([30, 100, 300, 1000, 1000])) for _ in gprogs]
+    gimpl = run_sharded(ctx, harness, ["GINT %s %s" % (d, q) for d, q in zip(gdel, gprogs)], shards=8)
+    gmod = run_sharded(ctx, model, gprogs) if model else None
+    gstat = {"cases": len(gprogs), "interrupted": 0, "interrupted_before_first_event": 0, "interrupted_mid_run": 0, "too_late": 0}
+    gbad = []
+    if gmod is not None:
+        for q, d, h, m in zip(gprogs, gdel, gimpl, gmod):
+            if h == "TIMEOUT" or m in ("TIMEOUT", "OOF", "PARSE-ERROR"):
+                continue
+            hs, ms = h.split(" # "), m.split(" # ")
+            f1, m1 = dict(FIELD_RE.findall(hs[0])), dict(FIELD_RE.findall(ms[0]))
+            why = None
+            if "ACT-VIOLATION" in h or h.startswith(("HANG", "CRASH", "PANIC")):
+                why = "harness:" + h[:60]
+            elif f1.get("err") != "int":
+                gstat["too_late"] += 1
+                if h != m:
+                    why = "uninterrupted run differs from the model"
+            else:
+                gstat["interrupted"] += 1
+                def is_prefix(a, b):
+                    return a == "" or a == b or b.startswith(a + ",")
+                if f1.get("ev", "") == "":
+                    gstat["interrupted_before_first_event"] += 1
+                elif f1.get("ev") != m1.get("ev"):
+                    gstat["interrupted_mid_run"] += 1
+                if not is_prefix(f1.get("ev", ""), m1.get("ev", "")):
+                    why = "events before the interrupt are not a prefix of the uninterrupted run"
+                elif not is_prefix(f1.get("tr", ""), m1.get("tr", "")):
+                    why = "tracker calls before the interrupt are not a prefix of the uninterrupted run"
+                elif f1.get("q") != "0" or "depth" in f1:
+                    why = "job queue not empty / runtime not idle after the interrupted call"
+                elif len(hs) < 2 or hs[1] != "ev=l9;tr=;q=0;err=none":
+                    why = "the call after the interrupt saw jobs that had been dropped"
+            if why:
+                gbad.append((q, d, why, h, m))
+    ctx.count(len(gprogs))
+    ctx.stats["goroutine_interrupt"] = gstat
+    ctx.obligation("corr:interrupt-from-another-goroutine(prefix of the model run, queue dropped, next call clean)", "correspondence",
+                   gmod is not None and not gbad, "; ".join("%s [%s]: %s" % (q, d, w) for q, d, w, _, _ in gbad[:3])[:900])
+    for q, d, w, h, m in gbad[:2]:
+        ctx.violation("c10:goroutine-interrupt", "interrupt from another goroutine (timing dependent, released at event:delay_us %s): %s: %s" % (d, w, q),
+                      {"kind": "schedule", "program": q, "release": d, "expected": "prefix of: " + m, "observed": h, "difference": w})
+    # ------------------------------------------------------------------ AsyncContextTracker contract probes (func.go:41-43)
+    # "for each invocation of Grab there will be exactly one subsequent invocation of Resumed and then Exited (assuming the
+    # Promise is fulfilled or rejected)": every promise of these programs settles and no interrupt occurs.
+    probes = ["F 0 ; ret a | R pres n1 0 catch 0 0 1 ; ret u",
+              "F 0 ; ret a | R prej n1 0 then 0 0 - 1 catch 1 0 2 ; ret u",
+              "F 0 ; ret a | R pres n1 0 then 0 0 0 1 fin 1 0 2 ; ret u",
+              "A 0 await n1 awaitt p0 ; ret n2 | F 0 ; ret a | R prej n3 0 call 0 1 then 1 0 0 2 ; ret u"]
+    _, pouts, _ = ctx.run_lines([harness], ["ACT " + q for q in probes], timeout=300)
+    ctx.stats["act_probes"] = dict(zip(probes, pouts))
+    for q, o in zip(probes, pouts):
+        ev = [x for x in o[4:].split(",") if x] if o.startswith("act=") else None
+        if ev is None:
+            continue
+        g, r_, x = sum(e[0] == "G" for e in ev), sum(e[0] == "R" for e in ev), sum(e == "X" for e in ev)
+        if g != r_ or r_ != x:
+            ctx.violation("c10:act:passthrough-reaction-never-resumed",
+                          "AsyncContextTracker: a Grab is never followed by Resumed/Exited although the promise settled and its "
+                          "reaction job ran (pass-through reaction without handler): %s -> %s" % (q, ",".join(ev)),
+                          {"kind": "program", "program": q, "expected": "as many Resumed and Exited as Grab (func.go:41-43)",
+                           "observed": ",".join(ev), "difference": "async-context-tracker-contract"})
     # ------------------------------------------------------------------ failing inputs: shrink, report
     reported = {}
     todo = [(i, first_diff_field(impl[i], mod[i])) for i in mism] if mod is not None else []
